@@ -1544,6 +1544,11 @@ func census(dir string) (map[string]bool, error) {
 
 func censusKinds(k string) bool { return k == "prune" || k == "finalize" }
 
+// censusRestore: a completed checkpoint restore removes its restore journal; on badger (whose journal is real) the
+// raw key set after a restore that was interrupted inside its Finalize and is found finalized after the reopen must
+// equal that of the uninterrupted restore - a leftover journal makes a LATER aborted restore delete live nodes.
+func censusRestore(k, backend string) bool { return k == "restore" && backend == "badger" }
+
 func diffCensus(got, want map[string]bool) string {
 	var extra, missing []string
 	for k := range got {
@@ -1737,7 +1742,7 @@ func checkCrash(p *plan, ck *ckpt, ref *reference, dir string, i int) (out outco
 	if out.Retry == "already-done" && out.State != "applied" {
 		return out, viol(sig("retry-refused"), "%s: O reports already-done but the state after reopen differs from the uninterrupted run: %s", tag, out.Detail)
 	}
-	if censusKinds(k) {
+	if censusKinds(k) || (censusRestore(k, b) && sx.HasLatest && sx.Latest == p.Target && ref.census != nil) {
 		// (3b) nothing that O was supposed to delete is left behind
 		ndb.Close()
 		got, cerr := census(dir)
@@ -1905,7 +1910,7 @@ func runHistory(sp spec, work string, onlyIndex int, onlySite string, noExclusio
 	if err != nil {
 		return refViol(viol(sig("retry-fails"), "%s: repeating O failed: %v", nocrash, err))
 	}
-	if censusKinds(sp.Kind) {
+	if censusKinds(sp.Kind) || censusRestore(sp.Kind, sp.Backend) {
 		rdb.Close()
 		ref.census, err = census(refDir)
 		if err != nil {
